@@ -237,7 +237,6 @@ CONFIGS = ['shared', 'separate', 'different']
 # the module-level `balance` cache (query_env / query_execute) and the shared AST rewritten by the compiler.
 LINE2 = [
     ('line:query_env.py,query_execute.py', 'shared', ('bal2', 'bal2')),
-    ('line:query_env.py,query_execute.py', 'different', ('bal2', 'bal2')),
     ('line:compiler.py', 'shared', ('pos2', 'pos2')),
 ]
 
@@ -602,19 +601,20 @@ def plan(ctx):
     for config in CONFIGS:
         for ids in pairs:
             add('yield', config, ids, None, sched.interleavings(*[pts[s] + 1 for s in ids]), 600)
+    subset = set(quick_triples(triples))
     for config in CONFIGS:
         for ids in triples:
+            if config == 'separate' and ids not in subset:
+                continue
             p = sum(pts[s] for s in ids)
             add('yield', config, ids, 2, 6 * (1 + 2 * p + 2 * p * p), 1500)
     lpts = {}
     if ctx.thorough:
         lpts = {sid: count_points('line', sid, seed) for sid in IDS}
-        nxt = {a: IDS[(i + 1) % len(IDS)] for i, a in enumerate(IDS)}
-        for config in CONFIGS:
+        # 'separate' lies between 'shared' (everything shared) and 'different' (nothing shared, differing data):
+        # line granularity is explored in those two
+        for config in ('shared', 'different'):
             for ids in pairs:
-                # 'separate' lies between 'shared' and 'different': there only (a,a) and (a,next(a)) at line granularity
-                if config == 'separate' and not (ids[0] == ids[1] or nxt[ids[0]] == ids[1] or nxt[ids[1]] == ids[0]):
-                    continue
                 add('line', config, ids, 1, 2 + sum(lpts[s] for s in ids), 500)
         for mode, config, ids in LINE2:
             n = [count_points(mode, sid, seed) for sid in ids]
@@ -802,11 +802,11 @@ def _run(ctx):
                 'although it could continue)',
         'exhaustive': exhaustive,
         'bound': ('2 threads: ALL interleavings of the vy()/table-row points for all %d statement pairs x 3 configurations; '
-                  '3 threads: all schedules with <= 2 preemptions for %d triples x 3 configurations'
-                  % (len(total.sets['items|yield|shared|2']), len(total.sets['items|yield|shared|3'])))
+                  '3 threads: all schedules with <= 2 preemptions for %d triples (shared and different configurations; the quick '
+                  'subset in the separate configuration); text statements: all interleavings of %s incl. parse points'
+                  % (len(total.sets['items|yield|shared|2']), len(total.sets['items|yield|shared|3']), TEXT_PAIRS + PARSE_PAIRS))
                  + ('; line granularity (sys.settrace, a point before every line of beanquery/*.py): all schedules with <= 1 '
-                    'preemption for all pairs in the shared and different configurations and the (a,a), (a,next a) pairs in the separate '
-                    'configuration; <= 2 preemptions with line points restricted to the modules '
+                    'preemption for all pairs in the shared and different configurations; <= 2 preemptions with line points restricted to the modules '
                     'holding the shared state for %s (at most %d executions per sub-shard)'
                     % ([f'{m} {c} {"+".join(i)}' for m, c, i in LINE2], LINE2_CAP) if ctx.thorough else ''),
         'caps_hit': [f'{label} sub-shard {s}: {u} prefixes unexplored' for label, s, u in capped][:40],
